@@ -42,7 +42,14 @@ def case_strategy(draw):
         t["order"] = list(draw(st.permutations(range(len(spec["cols"])))))
     elif kind == "add_unused":
         t["which"] = draw(st.lists(st.sampled_from(["num", "str", "nan", "obj", "catcol"]), min_size=1, max_size=4, unique=True))
-    return {"design": d, "frame": spec, "transform": t}
+    holes = {}
+    if draw(st.integers(0, 2)) == 0:
+        used = sorted(rich.used_columns(d) & {"x", "z", "p", "y", "f", "g", "h", "u"})
+        for name in draw(st.lists(st.sampled_from(used), min_size=1, max_size=2, unique=True)) if used else []:
+            if frames.column(spec, name)["kind"] == "int":
+                continue
+            holes[name] = sorted(draw(st.sets(st.integers(0, n - 1), min_size=1, max_size=max(1, n // 5))))
+    return {"design": d, "frame": spec, "transform": t, "holes": holes}
 
 
 def transformed(spec, t, used):
@@ -94,6 +101,11 @@ def judge(ctx, case):
         return
     rich.register_user_transform()
     d, spec, t = case["design"], case["frame"], case["transform"]
+    holes = case.get("holes") or {}
+    if holes:
+        from vf.checks.c09 import with_holes
+
+        spec = with_holes(spec, holes)  # missing values in used columns: the default policy drops those rows
     formula = d["formula"]
     used = rich.used_columns(d)
     frame = frames.build(spec)
@@ -103,7 +115,7 @@ def judge(ctx, case):
     identity = (perm is not None and perm == list(range(len(perm)))) or (t["kind"] == "remove_unused" and len(spec2["cols"]) == len(spec["cols"]))
     interesting = any("(" in a or a in ("f", "g", "h", "u") for tt in d["terms"] + [e for g in d["groups"] for e in g["effects"]] for a in tt) or bool(d["groups"])
     ctx.count(core.canon(case), interesting and not identity and frames.nrows(spec) >= 3, ["transform:" + t["kind"] + (":" + t["index"] if "index" in t else ""),
-              "response:" + d["response"].split("[")[0].split("(")[0]], sample={"formula": formula, "transform": t, "frame": spec}, stratum="transform:" + t["kind"])
+              "response:" + d["response"].split("[")[0].split("(")[0]] + (["missing_values"] if holes else []), sample={"formula": formula, "transform": t, "frame": spec}, stratum="transform:" + t["kind"])
     try:
         with core.Guard():
             a = design_summary(design_matrices(formula, frame, extra_namespace=ns))
@@ -122,6 +134,11 @@ def judge(ctx, case):
     except Exception as e:  # pylint: disable=broad-except
         ctx.fail("status", case, f"{formula!r} is accepted on the frame but raises {type(e).__name__}: {e} after {t['kind']}", t["kind"] + ":" + core.exc_key(e))
         return
+    if perm is not None and holes:
+        bad = set().union(*[set(r) for r in holes.values()])
+        kept = [i for i in range(frames.nrows(spec)) if i not in bad]
+        pos = {r: k for k, r in enumerate(kept)}
+        perm = [pos[p_] for p_ in perm if p_ in pos]  # the kept rows, in the order of the permuted frame
     diffs = compare_summaries(a, b, perm=perm, exact=perm is None)
     for key, msg in diffs[:3]:
         ctx.fail("equivariance", case, f"{formula!r} after {t['kind']}{(':' + t['index']) if 'index' in t else ''}: {key}: {msg}"[:600], t["kind"] + ":" + key)
